@@ -910,7 +910,17 @@ func (sc *siteCollector) impl(ib *hs.ImplBlock) {
 		sc.add(reftype.RImpl, "impl-method-added", nil, nil, func() {
 			ib.Methods = append(ib.Methods, &hs.Func{Name: "zz_extra", Params: []hs.Param{{Name: "self", Single: ib.Singleton}}, Body: hs.Blk(nil)})
 		})
-		sc.add(reftype.RImpl, "impl-method-modifier", nil, nil, func() { m.Pub = true })
+		switch {
+		case m.Pub:
+			sc.add(reftype.RImpl, "impl-method-modifier-dropped", nil, []string{"modifier:pub"}, func() { m.Pub = false })
+			sc.add(reftype.RImpl, "impl-method-modifier-changed", nil, []string{"modifier:pub-to-event"}, func() { m.Pub, m.Event = false, true })
+		case m.Event:
+			sc.add(reftype.RImpl, "impl-method-modifier-dropped", nil, []string{"modifier:event"}, func() { m.Event = false })
+			sc.add(reftype.RImpl, "impl-method-modifier-changed", nil, []string{"modifier:event-to-pub"}, func() { m.Pub, m.Event = true, false })
+		default:
+			sc.add(reftype.RImpl, "impl-method-modifier", nil, nil, func() { m.Pub = true })
+			sc.add(reftype.RImpl, "impl-method-modifier", nil, []string{"modifier:none-to-event"}, func() { m.Event = true })
+		}
 		sc.add(reftype.RDup, "impl-method-name-clash", nil, nil, func() {
 			sc.prog.Funcs = append(sc.prog.Funcs, hs.Fn(m.Name, nil, hs.Blk(nil)))
 		})
